@@ -61,9 +61,24 @@ func uv(v uint64) []byte {
 	return append([]byte{}, buf[:binary.PutUvarint(buf[:], v)]...)
 }
 
-// nonMinimal re-encodes v with pad extra continuation groups (0x80 ... 0x00).
+// nonMinimal re-encodes v with up to pad extra continuation groups (0x80 ... 0x00)
+// such that the result is still an EQUIVALENT encoding for Go's Uvarint and
+// protobuf's varint reader: at most ten bytes in total (the padding ends in
+// 0x00, so a tenth byte is <= 1).  A value whose minimal encoding already has
+// ten bytes is returned unchanged.
 func nonMinimal(v uint64, pad int) []byte {
 	b := uv(v)
+	if len(b)+pad > binary.MaxVarintLen64 {
+		pad = binary.MaxVarintLen64 - len(b)
+	}
+	return padVarint(b, pad)
+}
+
+// nonMinimalRaw pads without the ten-byte cap: beyond ten bytes the result is
+// an overflowing varint that decoders must reject (malformed-input classes only).
+func nonMinimalRaw(v uint64, pad int) []byte { return padVarint(uv(v), pad) }
+
+func padVarint(b []byte, pad int) []byte {
 	if pad <= 0 {
 		return b
 	}
@@ -129,7 +144,7 @@ func randProto(c *hx.Ctx, ty uint64, data []byte) ([]byte, string) {
 		return cat(pbVarint(1, v), pbBytes(2, data)), "pb-enum-wide"
 	case 10: // non-minimal and over-long varints
 		pad := r.Intn(11)
-		return cat(pbTag(1, 0), nonMinimal(ty, pad), pbTag(2, 2), nonMinimal(uint64(len(data)), r.Intn(4)), data), "pb-nonminimal-varint"
+		return cat(pbTag(1, 0), nonMinimalRaw(ty, pad), pbTag(2, 2), nonMinimal(uint64(len(data)), r.Intn(4)), data), "pb-nonminimal-varint"
 	case 11: // unknown field whose skip runs into lenient-varint corner cases
 		tenth := []byte{0x00, 0x01, 0x02, 0x7f}[r.Intn(4)]
 		lv := cat([]byte{0x80, 0x80, 0x80, 0x80, 0x80, 0x80, 0x80, 0x80, 0x80}, []byte{tenth})
